@@ -81,6 +81,10 @@ GrowViol(s, e, elemLen, needRule) ==
            THEN {<<"C09", "capacity_not_the_policy_answer">>} ELSE {})
      \cup (IF \E i \in 1..Len(g) : PolicyAns(g[i].p, g[i].c) >= 0 /\ PolicyAns(g[i].p, g[i].c) # g[i].a
            THEN {<<"C09", "builtin_policy_arithmetic">>} ELSE {})
+     \* C03 quantifies over "every growth policy that permits the needed size": a built-in policy that, by its documented
+     \* arithmetic, permits the size asked for and refuses it makes the outcome of this configuration differ from the others
+     \cup (IF \E i \in 1..Len(g) : PolicyAns(g[i].p, g[i].c) > 0 /\ g[i].a = 0
+           THEN {<<"C03", "permitting_policy_refused">>} ELSE {})
      \cup (IF needRule /\ \E i \in 1..Len(g) : ~(elemLen + 1 > g[i].c)
            THEN {<<"C09", "grew_although_record_fits">>} ELSE {})
      \cup (IF refused # {} /\ Max(refused) # Len(g)
